@@ -130,7 +130,7 @@ C13 = {
         "Session::action/receive rollback on failure: decided under C14",
     ],
     "trusted_base": COMMON_TRUST,
-    "level_text": "Bounded inductive proof by CBMC over the real revert/insert/delete/add_command code: one operation from an arbitrary (field-by-field constructed) state is compared with a flat map model; revert(i) is shown to keep exactly commands[..i] (linear) / fact_log[..i] (session), to leave nothing pending, and to rebuild the visible facts as base;retained updates from an overlay that is arbitrary garbage - when writes of a failed rule are pending at equal command count, when commands are dropped, and when the session overlay Arc is shared; at equal count with nothing pending nothing changes. Because pre-states are arbitrary, the steps compose (argument written in harness/runtime/revert.rs) to histories of any length within the size bound. The LITERAL statement (a checkpoint taken while writes are pending) is a separate harness and FAILS for LinearPerspective: recorded as known finding (native test in replays/C13).",
+    "level_text": "Bounded inductive proof by CBMC over the real revert/insert/delete/add_command code: one operation from an arbitrary (field-by-field constructed) state is compared with a flat map model; revert(i) is shown to keep exactly commands[..i] (linear) / fact_log[..i] (session), to leave nothing pending, and to rebuild the visible facts as base;retained updates from an overlay that is arbitrary garbage - when writes of a failed rule are pending at equal command count, when commands are dropped, and when the session overlay Arc is shared; at equal count with nothing pending nothing changes. Because pre-states are arbitrary, the steps compose (argument written in harness/runtime/revert.rs) to histories of any length within the size bound. The LITERAL statement (a checkpoint taken while writes are pending) is a separate harness and FAILS for LinearPerspective: recorded as known finding (native test in findings/).",
     "level_note": "Trusted: Kani/CBMC; std BTreeMap replaced by harness OrdMap (checked separately by vmap_* harnesses); memory-safety checks off; vectors read back by revert live in stack buffers; sizes as in bounds. KNOWN FINDING: LinearPerspective::checkpoint records only commands.len(), so a checkpoint taken while fact writes are pending makes revert drop the pre-checkpoint writes too (harness c13_linear_checkpoint_with_pending_writes; in-tree callers only checkpoint with nothing pending). The session half relies on C14 for 'a session write changes exactly its key and is logged', which CBMC could NOT decide (see C14 outside_claim): for SessionPerspective the write step is by inspection (two lines: fact_log.push + map insert).",
 }
 
